@@ -16,7 +16,7 @@ import (
 
 // Go replaces a go statement.
 func Go(f func()) {
-	s := cur
+	s := curp.Load()
 	if s == nil {
 		go f()
 		return
@@ -39,7 +39,7 @@ func (s *Sim) spawn(f func()) {
 //
 //go:norace
 func Yield() {
-	s := cur
+	s := curp.Load()
 	if s == nil {
 		return
 	}
@@ -75,7 +75,7 @@ const (
 // and the real channel (a kernel defect, or a channel also used by code that
 // is not instrumented).
 func mismatch(op string, ch any, length, capacity int) {
-	s := cur
+	s := curp.Load()
 	panic(fmt.Sprintf("verifsim: model/real channel mismatch in %s: real len=%d cap=%d; %s", op, length, capacity, s.describe()))
 }
 
@@ -266,7 +266,7 @@ func chanPtr[T any](ch chan T) unsafe.Pointer {
 
 // Send replaces `ch <- v`.
 func Send[T any](ch chan<- T, v T) {
-	s := cur
+	s := curp.Load()
 	if s == nil {
 		ch <- v
 		return
@@ -300,7 +300,7 @@ func (s *Sim) sendClosed(p unsafe.Pointer) bool {
 // TrySend replaces `select { case ch <- v: A default: B }`; it reports
 // whether the send happened.
 func TrySend[T any](ch chan<- T, v T) bool {
-	s := cur
+	s := curp.Load()
 	if s == nil {
 		select {
 		case ch <- v:
@@ -350,7 +350,7 @@ func Recv[T any](ch <-chan T) T {
 
 // Recv2 replaces `v, ok := <-ch` and is the basis of range-over-channel.
 func Recv2[T any](ch <-chan T) (T, bool) {
-	s := cur
+	s := curp.Load()
 	if s == nil {
 		v, ok := <-ch
 		return v, ok
@@ -379,7 +379,7 @@ func Recv2[T any](ch <-chan T) (T, bool) {
 // TryRecv replaces `select { case v, ok := <-ch: A default: B }`; selected
 // reports whether the receive case was taken.
 func TryRecv[T any](ch <-chan T) (v T, ok bool, selected bool) {
-	s := cur
+	s := curp.Load()
 	if s == nil {
 		select {
 		case v, ok = <-ch:
@@ -406,7 +406,7 @@ func TryRecv[T any](ch <-chan T) (v T, ok bool, selected bool) {
 
 // Close replaces close(ch).
 func Close[T any](ch chan<- T) {
-	s := cur
+	s := curp.Load()
 	if s == nil {
 		close(ch)
 		return
@@ -430,7 +430,7 @@ func (s *Sim) preClose(p unsafe.Pointer, capa, n int) bool {
 // ForeignChan declares that ch is fed from outside the simulation (e.g. by
 // os/signal); simulated receivers on it never become enabled.
 func ForeignChan[T any](ch chan T) {
-	s := cur
+	s := curp.Load()
 	if s == nil {
 		return
 	}
@@ -448,7 +448,7 @@ func (s *Sim) markForeign(p unsafe.Pointer, capa, n int) {
 
 // Lock replaces mu.Lock().
 func Lock(mu *sync.Mutex) {
-	s := cur
+	s := curp.Load()
 	if s == nil {
 		mu.Lock()
 		return
@@ -474,7 +474,7 @@ func (s *Sim) preLock(p unsafe.Pointer) bool {
 
 // Unlock replaces mu.Unlock().
 func Unlock(mu *sync.Mutex) {
-	s := cur
+	s := curp.Load()
 	if s == nil {
 		mu.Unlock()
 		return
@@ -504,7 +504,7 @@ func (s *Sim) preUnlock(p unsafe.Pointer) bool {
 
 // RWLock replaces rw.Lock().
 func RWLock(rw *sync.RWMutex) {
-	s := cur
+	s := curp.Load()
 	if s == nil {
 		rw.Lock()
 		return
@@ -516,7 +516,7 @@ func RWLock(rw *sync.RWMutex) {
 
 // RWUnlock replaces rw.Unlock().
 func RWUnlock(rw *sync.RWMutex) {
-	s := cur
+	s := curp.Load()
 	if s == nil {
 		rw.Unlock()
 		return
@@ -528,7 +528,7 @@ func RWUnlock(rw *sync.RWMutex) {
 
 // RLock replaces rw.RLock().
 func RLock(rw *sync.RWMutex) {
-	s := cur
+	s := curp.Load()
 	if s == nil {
 		rw.RLock()
 		return
@@ -540,7 +540,7 @@ func RLock(rw *sync.RWMutex) {
 
 // RUnlock replaces rw.RUnlock().
 func RUnlock(rw *sync.RWMutex) {
-	s := cur
+	s := curp.Load()
 	if s == nil {
 		rw.RUnlock()
 		return
@@ -592,7 +592,7 @@ func (s *Sim) postRW(p unsafe.Pointer, write bool) bool {
 
 // OnceDo replaces once.Do(f).
 func OnceDo(o *sync.Once, f func()) {
-	s := cur
+	s := curp.Load()
 	if s == nil {
 		o.Do(f)
 		return
@@ -639,7 +639,7 @@ func (s *Sim) postOnce(p unsafe.Pointer) {
 
 // WGAdd replaces wg.Add(n).
 func WGAdd(wg *sync.WaitGroup, n int) {
-	s := cur
+	s := curp.Load()
 	if s == nil {
 		wg.Add(n)
 		return
@@ -659,7 +659,7 @@ func (s *Sim) wgAdd(p unsafe.Pointer, n int) {
 
 // WGWait replaces wg.Wait().
 func WGWait(wg *sync.WaitGroup) {
-	s := cur
+	s := curp.Load()
 	if s == nil {
 		wg.Wait()
 		return
@@ -693,7 +693,7 @@ func MapKeys[K comparable, V any](m map[K]V) []K {
 	for k := range m {
 		keys = append(keys, k)
 	}
-	s := cur
+	s := curp.Load()
 	if s == nil || len(keys) < 2 {
 		return keys
 	}
@@ -758,7 +758,7 @@ func (s *Sim) mapDraw(n int, ties bool) uint32 {
 //
 //go:norace
 func Now() time.Time {
-	s := cur
+	s := curp.Load()
 	if s == nil {
 		return time.Now()
 	}
@@ -769,7 +769,7 @@ func Now() time.Time {
 //
 //go:norace
 func Advance(d time.Duration) {
-	s := cur
+	s := curp.Load()
 	if s == nil {
 		return
 	}
@@ -788,7 +788,7 @@ func SetPassthroughProcs(n int) { procsOverride = n }
 //
 //go:norace
 func Procs() int {
-	s := cur
+	s := curp.Load()
 	if s == nil || s.cfg.Procs <= 0 {
 		if procsOverride > 0 {
 			return procsOverride
@@ -802,7 +802,7 @@ func Procs() int {
 //
 //go:norace
 func RandIntn(n int) int {
-	s := cur
+	s := curp.Load()
 	if s == nil {
 		return realRandIntn(n)
 	}
@@ -820,7 +820,7 @@ type Proc int32
 // Spawn starts a new simulated process whose main task runs f. Only the
 // disk is shared between processes.
 func Spawn(name string, f func()) Proc {
-	s := cur
+	s := curp.Load()
 	if s == nil {
 		panic("verifsim: Spawn without simulation")
 	}
@@ -845,7 +845,7 @@ func (s *Sim) spawnProc(name string, f func()) Proc {
 //
 //go:norace
 func Join(p Proc) {
-	s := cur
+	s := curp.Load()
 	t := &s.tasks[s.running]
 	if t.killed {
 		return
@@ -860,7 +860,7 @@ func Join(p Proc) {
 //
 //go:norace
 func Quiesce() {
-	s := cur
+	s := curp.Load()
 	if s == nil {
 		return
 	}
@@ -876,13 +876,13 @@ func Quiesce() {
 // Crashed reports whether p was killed by a crash fault or a panic.
 //
 //go:norace
-func Crashed(p Proc) bool { return cur.procs[p].crashed }
+func Crashed(p Proc) bool { return curp.Load().procs[p].crashed }
 
 // CurProc returns the index of the calling task's process.
 //
 //go:norace
 func CurProc() int {
-	s := cur
+	s := curp.Load()
 	if s == nil {
 		return 0
 	}
@@ -894,7 +894,7 @@ func CurProc() int {
 //
 //go:norace
 func Killed() bool {
-	s := cur
+	s := curp.Load()
 	if s == nil {
 		return false
 	}
@@ -907,7 +907,7 @@ func Killed() bool {
 //
 //go:norace
 func FSOp() (int, *Fault) {
-	s := cur
+	s := curp.Load()
 	t := &s.tasks[s.running]
 	t.wait = wNone
 	s.reschedule()
@@ -926,14 +926,14 @@ func FSOp() (int, *Fault) {
 // FSOps returns the number of file system operations process p has issued.
 //
 //go:norace
-func FSOps(p Proc) int { return int(cur.procs[p].fsOps) }
+func FSOps(p Proc) int { return int(curp.Load().procs[p].fsOps) }
 
 // CrashCurrent kills the calling task's process at this point. It does not
 // return.
 //
 //go:norace
 func CrashCurrent() {
-	s := cur
+	s := curp.Load()
 	t := &s.tasks[s.running]
 	p := &s.procs[t.proc]
 	p.crashed = true
